@@ -1032,9 +1032,11 @@ func (s *storage) RemoveBlobs(ctx context.Context, blobs []blob.Ref) error {
 			if m.isPacked() {
 				packed = append(packed, br)
 				large[m.largeRef] = true
-			} else {
-				unpacked = append(unpacked, br)
 			}
+			// Always remove it from small too: a packed blob is still
+			// there as well if its pack was interrupted between the
+			// meta commit and the deletion of the loose blobs.
+			unpacked = append(unpacked, br)
 			return nil
 		})
 	}
